@@ -768,7 +768,7 @@ fn gen_leaf_inline(rng: &mut Rng, fns: &[String], has_data: bool, fail: bool) ->
 }
 
 fn gen_leaf(rng: &mut Rng, fns: &[String], has_data: bool, fail: bool) -> S {
-    match rng.below(16) {
+    match rng.below(17) {
         0..=3 => S::Let(nvar(rng), None, gen_num(rng, 2, fns)),
         4 => S::Let(svar(rng), None, gen_str(rng)),
         5..=8 => {
@@ -792,6 +792,15 @@ fn gen_leaf(rng: &mut Rng, fns: &[String], has_data: bool, fail: bool) -> S {
             1 => vec![E::Num(3.0), E::Num(3.0)],
             _ => vec![E::Num(2.0), E::Num(2.0), E::Num(2.0)],
         }),
+        15 => {
+            // three-dimensional cells of an array whose extents differ
+            let ix = |rng: &mut Rng| vec![E::Num(rng.pick(&[0.0, 1.0, 2.0, 3.0])), E::Num(rng.pick(&[0.0, 1.0])), E::Num(rng.pick(&[0.0, 1.0, 2.0]))];
+            match rng.below(3) {
+                0 => S::Dim("C".to_string(), vec![E::Num(3.0), E::Num(1.0), E::Num(2.0)]),
+                1 => S::Let("C".to_string(), Some(ix(rng)), gen_num(rng, 1, fns)),
+                _ => S::Print(vec![(E::Cell("C".to_string(), ix(rng)), ';'), (E::Cell("C".to_string(), ix(rng)), ';')], false),
+            }
+        }
         14 if fail => match rng.below(8) {
             0 => S::Let("A".into(), None, E::Bin("/", Box::new(E::Num(1.0)), Box::new(E::Num(0.0)))),
             1 => S::Let("A".into(), None, E::Str("x".into())),
@@ -847,7 +856,14 @@ pub fn gen_program(rng: &mut Rng, allow_else_resume: bool) -> (Program, Vec<&'st
                     2 => Some(E::Num(0.5)),
                     _ => None,
                 };
-                S::For(v, gen_num(rng, 0, &fns), gen_num(rng, 0, &fns), step)
+                // sometimes the limit / step mention the loop variable itself (fixed at entry, from its OLD value)
+                let to = match rng.below(6) {
+                    0 => E::Bin("+", Box::new(E::Var(v.clone())), Box::new(E::Num(rng.pick(&[1.0, 2.0, 3.0])))),
+                    1 => E::Bin("*", Box::new(E::Var(v.clone())), Box::new(E::Num(2.0))),
+                    _ => gen_num(rng, 0, &fns),
+                };
+                let step = if rng.chance(1, 8) { Some(E::Bin("+", Box::new(E::Var(v.clone())), Box::new(E::Num(1.0)))) } else { step };
+                S::For(v, gen_num(rng, 0, &fns), to, step)
             }
             2 if !open.is_empty() => {
                 // usually the innermost, sometimes an outer one (NEXT forgets inner loops)
